@@ -95,6 +95,21 @@ def corpus_cases():
         c.op("snap", t)
         cases.append(c)
     cases += hist.matrix_cases("c12", ["mem", "phys", "alt_mem", "ovl_mm", "ovl_sub", "alt_ovl"])
+    # error ITEMS of a walk: entries that vanish behind the iterator's back after 0..3 items (files, directories, a whole
+    # sub-tree); the lookup of a listed entry then fails, and the item must name the walked path in the caller's namespace
+    for kind in ["mem", "phys", "alt_mem", "ovl_mm", "ovl_sub", "alt_ovl"]:
+        c = vfx.Case("c12_walkrm_%s" % kind)
+        g = hist.build_config(c, kind, rng)
+        c.cfg = g
+        t = g.target
+        for k, victim in ((0, "wk/a/f1"), (1, "wk/z1"), (2, "wk/a/b"), (1, "wk/a"), (0, "wk/z2"), (3, "wk/a/b/deep"), (1, "wk/a/f2")):
+            c.op("createdirall", vfx.ps(t, "wk/a/b"))
+            for n in ("wk/a/f1", "wk/a/f2", "wk/z1", "wk/z2", "wk/a/b/deep"):
+                hist.write_file(c, t, n, b"w")
+            c.op("walkrm", vfx.ps(t, "wk"), k, vfx.ps(t, victim))
+            c.op("walkrm", "%d:" % t, k + 1, vfx.ps(t, victim if victim != "wk/a/f2" else "wk/a/f1"))
+        c.op("snap", t)
+        cases.append(c)
     cases += hist.long_path_cases("c12", ["mem", "phys", "alt_mem", "ovl_mm", "ovl_sub"])
     return cases
 
@@ -107,7 +122,7 @@ P = histprop.HistProp(
     oracle=oracle, hostile=0.3, allow_big=False, prepop_density=0.6, corpus_cases=corpus_cases,
     rule=("DIRECTED: 22 join arguments around the trailing slash (relative, absolute, doubled, after dots, after a file, "
           "multi-byte) from the root and from a sub-directory on all 15 configurations, and every operation on every kind of "
-          "target on six of them; RANDOM: untyped histories (so that most calls fail) on all 15 configurations (up to three adapter boundaries), 30% of the "
+          "target on six of them, and walks whose listed entries vanish behind the iterator after 0..4 items (error items) on the same six; RANDOM: untyped histories (so that most calls fail) on all 15 configurations (up to three adapter boundaries), 30% of the "
           "arguments spelled non-canonically and some with a trailing slash; compared with the model: kind and path of every "
           "error, including the error items of walk_dir; oracle on the implementation alone: the path of every error is the "
           "call's path, its destination, an ancestor or a descendant in the caller's namespace, never the placeholder, and "
